@@ -208,6 +208,7 @@ def _txn(ctx, cfg, prog, mod):
                'restore-by-inverse (%s undoing %s) is %s reachable only through a failure edge; table reason: %s' % (
                    txn.short(inv), txn.short(undone), '' if ok else 'NOT', reason), site='%s:%d' % (b.file, b.line))
     _snaparg(ctx, cfg, prog, mod, res, eng)
+    _snapcond(ctx, cfg, prog, mod)
 
 
 def _snaparg(ctx, cfg, prog, mod, res, eng):
@@ -280,3 +281,79 @@ def _snaparg(ctx, cfg, prog, mod, res, eng):
                         ctx.ob('SNAPARG', '%s|%s' % (caller_q, q), cfg, ok, why,
                                site='%s:%d' % (cb.file, t.line))
     ctx.info.setdefault('snaparg_sites', {})[cfg] = n
+
+
+SHOULD_CHECK = 'core::delaunay_triangulation::DelaunayCheckPolicy::should_check'
+MAYBE_CHECK = D_ + 'maybe_check_after_insertion'
+SNAPCOND_SITES = {D_ + 'insert': True, D_ + 'insert_with_statistics': True, D_ + 'remove_vertex': False}
+
+
+def _snapcond(ctx, cfg, prog, mod):
+    """SNAPCOND: the three conditional snapshots decide from the same inputs that make the fallible
+    post-steps fire: the repair policy, and (when a Delaunay check follows) should_check evaluated
+    one insertion ahead (count + 1), because the check runs after the counter is incremented."""
+    import valueflow
+    ctx.rule('SNAPCOND', 'the conditional snapshot looks at the repair policy and, where a check follows, at '
+                         'should_check(insertion_count + 1)')
+    for fq, needs_check in sorted(SNAPCOND_SITES.items()):
+        b = ctx.anchor(cfg, fq)
+        if b is None:
+            continue
+        thens = [(bb, t) for bb, t in b.calls() if (t.resolved or t.callee) == 'bool::then']
+        site = '%s:%d' % (b.file, b.line)
+        if not thens:
+            ctx.ob('SNAPCOND', fq, cfg, True, 'no conditional snapshot (bool::then) in this function', nontrivial=False, site=site)
+            continue
+        for bb, t in thens:
+            flag = t.args[0]
+            leaves = valueflow.deep_sources(prog, mod, b, flag.place.local) if flag.place is not None else []
+            reads_policy = any(l[0] == 'place' and 'delaunay_repair_policy' in l[1][1] for l in leaves)
+            why = []
+            ok = True
+            if not reads_policy:
+                ok = False
+                why.append('the decision does not read insertion_state.delaunay_repair_policy')
+            if needs_check:
+                sc = [l for l in leaves if l[0] == 'call' and (l[1].resolved or l[1].callee) == SHOULD_CHECK]
+                if not sc:
+                    ok = False
+                    why.append('the decision does not consult DelaunayCheckPolicy::should_check')
+                else:
+                    ahead = False
+                    for l in sc:
+                        cb = prog.bodies[l[3]]
+                        arg = l[1].args[1] if len(l[1].args) > 1 else None
+                        sub = valueflow.deep_sources(prog, mod, cb, arg.place.local, depth=1) if arg is not None and arg.place is not None else []
+                        reads_count = any(x[0] == 'place' and 'delaunay_repair_insertion_count' in x[1][1] for x in sub)
+                        plus_one = any((x[0] == 'call' and (x[1].resolved or x[1].callee or '').rsplit('::', 1)[-1] in
+                                        ('saturating_add', 'checked_add', 'wrapping_add', 'add') and
+                                        any(a.int_value() == 1 for a in x[1].args)) or
+                                       (x[0] == 'op' and x[1].startswith('Add') and x[2] == 1) for x in sub)
+                        if reads_count and plus_one:
+                            ahead = True
+                    if not ahead:
+                        ok = False
+                        why.append('should_check is not evaluated at insertion_count + 1 (the check itself runs after the '
+                                   'counter is incremented), so the insertion on which the check fires takes no snapshot')
+            ctx.ob('SNAPCOND', fq, cfg, ok, '; '.join(why) or 'decision reads the repair policy%s' % (
+                ' and should_check(count + 1)' if needs_check else ''), site='%s:%d' % (b.file, t.line))
+    # the counter is incremented before the check in the insertion closures
+    for q, cb in sorted(prog.bodies.items()):
+        if cb.kind != 'closure' or cb.root not in (D_ + 'insert', D_ + 'insert_with_statistics'):
+            continue
+        checks = [bb for bb, t in cb.calls() if (t.resolved or t.callee) == MAYBE_CHECK]
+        if not checks:
+            continue
+        al = mod.aliases(q)
+        incs = []
+        for blk in cb.blocks:
+            if blk.cleanup:
+                continue
+            for s_ in blk.stmts:
+                root, fields, derefd = al.norm(s_.place)
+                if fields and fields[-1] == 'delaunay_repair_insertion_count' and derefd:
+                    incs.append(blk.idx)
+        ok = bool(incs) and all(any(cb.dominates(i, c) for i in incs) for c in checks)
+        ctx.ob('SNAPCOND', cb.root + '|increment-before-check', cfg, ok,
+               'insertion counter is %s incremented before maybe_check_after_insertion' % ('' if ok else 'NOT'),
+               site='%s:%d' % (cb.file, cb.line))
